@@ -23,7 +23,7 @@ from . import c01
 
 PROPERTY = "C14"
 LEVEL = "exploration"
-QUICK_RUNS = 4000
+QUICK_RUNS = 8000
 THOROUGH_RUNS = 100_000
 QUICK_BUDGET_S = 100
 BATCH = 25
